@@ -158,3 +158,52 @@ Proof. cbn [step]. destruct (has_reloader s); reflexivity. Qed.
 Theorem insertion_loser_dropped_at_once s k e old :
   cache_get s k = Some old -> snd (cache_insert s k e) = drop_of_tok (en_tok e) /\ fst (fst (cache_insert s k e)) = s.
 Proof. intros H. unfold cache_insert. rewrite H. split; reflexivity. Qed.
+
+(* ---- failed loads (C02) ---- *)
+(* types whose loader asks the cache for nothing: every kind but the Compounds and the directories *)
+Definition plain (t : ty) : bool := match t with TN | TNS | TDI | TRI => false | _ => true end.
+
+(* a load of a plain type that does not succeed -- error, panic -- leaves the map exactly as it was *)
+Theorem failed_plain_load_adds_nothing fuel s t id :
+  plain t = true ->
+  (forall e, snd (load_entry_f fuel s t id) <> ROk e) ->
+  cache (fst (fst (load_entry_f fuel s t id))) = cache s.
+Proof.
+  intros P. destruct fuel as [|f]; [reflexivity|]. cbn [load_entry_f]. unfold load_entry.
+  pose proof (cache_get_cached_rec s t id) as C. unfold get_cached_rec in *.
+  set (s0 := if hot_reloaded t then rec_add s (DepAsset (t, id)) else s) in *. cbn [fst] in C.
+  destruct (cache_get s0 (t, id)) as [e|] eqn:G; cbn [fst snd].
+  - intros H. exfalso. now apply (H e).
+  - assert (V : forall x, cache (fst (fst (load_value (load_entry_f f) (load_owned_f f) x t id))) = cache x).
+    { intros x. unfold load_value. destruct t; try discriminate P; try apply load_asset_value_cache; reflexivity. }
+    assert (W : forall x, cache (fst (fst (load_wrapped (load_entry_f f) (load_owned_f f) x t id))) = cache x).
+    { intros x. unfold load_wrapped. specialize (V x).
+      destruct (load_value (load_entry_f f) (load_owned_f f) x t id) as [[x1 tr] r]. exact V. }
+    assert (R : cache (fst (fst (load_and_record (load_entry_f f) (load_owned_f f) s0 t id))) = cache s0).
+    { unfold load_and_record. destruct (hot_reloaded t && has_reloader s0); [|apply W].
+      specialize (W (rec_push s0 (Some []))).
+      destruct (load_wrapped (load_entry_f f) (load_owned_f f) (rec_push s0 (Some [])) t id) as [[x1 tr] r].
+      pose proof (cache_rec_pop x1) as Q. destruct (rec_pop x1) as [x2 deps]. cbn [fst snd] in *.
+      destruct r; try rewrite cache_set_cm; rewrite Q, W; reflexivity. }
+    destruct (load_and_record (load_entry_f f) (load_owned_f f) s0 t id) as [[s1 tr] r]. cbn [fst snd] in R.
+    destruct r as [[v tok]|e| |]; cbn [fst snd]; intros H; try congruence.
+    exfalso. destruct (cache_insert s1 (t, id) (mk_entry s1 t v tok)) as [[s2 e'] d]. cbn [snd] in H.
+    now apply (H e').
+Qed.
+
+(* whatever the type: a load that does not succeed performs no insertion of its own -- the map it
+   leaves is the map its loader left (nested loads of a Compound included) *)
+Theorem failed_load_inserts_nothing_itself f s t id :
+  (forall e, snd (load_entry_f (S f) s t id) <> ROk e) ->
+  cache (fst (fst (load_entry_f (S f) s t id))) =
+  cache (fst (fst (load_and_record (load_entry_f f) (load_owned_f f) (fst (get_cached_rec s t id)) t id))).
+Proof.
+  cbn [load_entry_f]. unfold load_entry. unfold get_cached_rec.
+  set (s0 := if hot_reloaded t then rec_add s (DepAsset (t, id)) else s). cbn [fst snd].
+  destruct (cache_get s0 (t, id)) as [e|] eqn:G; cbn [fst snd].
+  - intros H. exfalso. now apply (H e).
+  - destruct (load_and_record (load_entry_f f) (load_owned_f f) s0 t id) as [[s1 tr] r]. cbn [fst snd].
+    destruct r as [[v tok]|e| |]; cbn [fst snd]; intros H; try reflexivity.
+    exfalso. destruct (cache_insert s1 (t, id) (mk_entry s1 t v tok)) as [[s2 e'] d]. cbn [snd] in H.
+    now apply (H e').
+Qed.
